@@ -350,7 +350,10 @@ def rule_r6(ctx) -> List[R.Inst]:
 def rule_dep(ctx):
     """obligations inherited from shared code reached through the call graph (sa/props/deps.py)"""
     from .deps import dep_insts
-    return dep_insts(ctx, "C09", __import__("sa.props.common", fromlist=["x"]).converter_entries(ctx.M) + ["reamber.osu.OsuMap.OsuMap.write", "reamber.quaver.QuaMap.QuaMap.write", "reamber.sm.SMMapSet.SMMapSet.write", "reamber.bms.BMSMap.BMSMap.write"], skip_groups=())
+    return dep_insts(ctx, "C09", __import__("sa.props.common", fromlist=["x"]).converter_entries(ctx.M) + ["reamber.osu.OsuMap.OsuMap.write", "reamber.quaver.QuaMap.QuaMap.write", "reamber.sm.SMMapSet.SMMapSet.write", "reamber.bms.BMSMap.BMSMap.write",
+        # "reading the file, converting and writing": the readers of the five source games
+        "reamber.osu.OsuMap.OsuMap.read", "reamber.quaver.QuaMap.QuaMap.read", "reamber.sm.SMMapSet.SMMapSet.read",
+        "reamber.bms.BMSMap.BMSMap.read", "reamber.o2jam.O2JMapSet.O2JMapSet.read"], skip_groups=())
 
 
 SPECS = [
